@@ -676,7 +676,6 @@ func e9CtlCase(seed uint64, n int) Case {
 	}}
 }
 
-
 // e9StopRun: a controller (static server content, first list takes 1 s of
 // virtual time) with subscribers of every kind created while that list is in
 // flight; the controller is stopped (context cancellation or Close) from INSIDE
